@@ -67,6 +67,12 @@ CHECKS = {
         text="Per authentic response (operations x contents x MD5/SHA-1 x authNoPriv/authPriv) every single-bit flip, every flip combined with cleared auth (and auth+priv) flags, and ~40 structural forgeries built without the victim's keys are delivered to the real client under the step budget; the outcome must be an exception or the authentic result. The quick corpus (8 responses, ~26 000 trials) and the thorough corpus (60 responses) are enumerated completely.",
         ref="DESIGN.md 4/C09",
     ),
+    "C10": dict(
+        cat="exploration",
+        technique="runtime monitoring: the independent RFC 3414 agent's verdict counters and parsed request fields, plus client acceptance of its authentic responses, over password/engine-id/length sweeps",
+        text="Every request of MD5/SHA-1 x authNoPriv/authPriv users must be verified by the independent agent (digest over the datagram as sent, flags = level|reportable, discovered engine id/boots/time, user name; all usmStats counters clean) and every authentic minimal-BER response must be accepted and decoded correctly. Swept: passwords of length 1..300 (thorough: every length), engine ids 5..32, boots/time, and paddings such that message, scoped-PDU and PDU content lengths each take EVERY value 100..300 in both directions (coverage measured; a gap makes the run inconclusive).",
+        ref="DESIGN.md 4/C10",
+    ),
     "C15": dict(
         cat="exploration",
         technique="runtime monitoring: recursive exact-type walk over PyWrapper results + equality with pythonised raw results",
